@@ -350,6 +350,7 @@ def run(repo: Repo, ctx, descriptive: bool = False) -> None:
 
     _r4(repo, ctx)
     _r5(repo, ctx)
+    _r6(repo, ctx)
 
 
 def _r4(repo: Repo, ctx) -> None:
@@ -577,3 +578,70 @@ def _r5(repo: Repo, ctx) -> None:
            f'ours / theirs: a field that stops (or starts) being inherited '
            f'while keeping its value is reported unchanged, so the script '
            f'omits the statement that pins it', co.loc, sample=norm(t))
+
+
+def _r6(repo: Repo, ctx) -> None:
+    from ..absint import Facts, must_pass
+    from ..model import inline_locals
+    ctx.floor('C02.R6', 3)
+    # (a) an ALTER of an object owned in the new schema is never folded into
+    #     the command of its implicit ancestor
+    to = repo.func('edb.schema.ordering._trace_op')
+    ctx.saw(to)
+    g = CFG(to.node)
+    merge = [n.id for n in g.nodes if n.kind == 'stmt' and isinstance(
+        n.ast, ast.Assign) and norm(n.ast.targets[0]) == 'implicit_ancestors'
+        and 'get_implicit_ancestors' in norm(n.ast.value)]
+    if not merge:
+        raise AnalysisError('C02.R6: implicit-ancestor merge of _trace_op '
+                            'not found')
+    guards = [t for t in g.nodes if t.kind == 'test' and any(
+        g.edge_dominates(t.id, 'T', m_) for m_ in merge)]
+    txt = ' ; '.join(norm(t.ast) for t in guards)
+    ok = 'not obj.get_owned(new_schema)' in txt
+    ctx.ob('C02.R6', '_trace_op:owned-objects-not-merged', ok,
+           f'the merge of a ref\'s ALTER into its implicit ancestor\'s '
+           f'command is guarded by `{txt[-120:]}`, not by the object being '
+           f'un-owned in the new schema: an overloaded (owned) pointer '
+           f'altered together with its parent is attached under the '
+           f'parent\'s command and renders to no DDL, so the child keeps '
+           f'its old state', to.loc,
+           sample='not obj.get_owned(new_schema)')
+    # (b) children of a renamed object move to the new module
+    cn = repo.func(f'{DELTA}.RenameObject._canonicalize')
+    ctx.saw(cn)
+    br = [c for c in ast.walk(cn.node) if isinstance(c, ast.Call)
+          and (call_name(c) or '').endswith('init_rename_branch')
+          and len(c.args) > 1]
+    if not br:
+        raise AnalysisError('C02.R6: rename branches of _canonicalize not '
+                            'found')
+    for c in br:
+        t = inline_locals(cn.node, c.args[1])
+        ok = 'module=self.new_name.module' in t
+        ctx.ob('C02.R6', '_canonicalize:children-follow-module', ok,
+               f'the children of a renamed object are renamed to `{t[:80]}`'
+               f': not into the module of the new parent name, so after '
+               f'moving a type to another module its pointers stay '
+               f'registered under the old module (which can then not be '
+               f'dropped)', cn.loc, sample='module=self.new_name.module')
+    # (c) union types containing an altered type are refreshed on every
+    #     non-canonical ALTER (pointers may arrive through a rebase)
+    af = repo.func('edb.schema.objtypes.AlterObjectType._alter_finalize')
+    ctx.saw(af)
+    g = CFG(af.node)
+    ref = [n.id for n in g.nodes if n.ast is not None and any(
+        isinstance(c, ast.Call) and 'get_referrers' in norm(c.func)
+        and "field_name='union_of'" in norm(c)
+        for c in g.node_calls(n))]
+    if not ref:
+        raise AnalysisError('C02.R6: union refresh of AlterObjectType not '
+                            'found')
+    F = Facts({'context.canonical': False}, af.node)
+    ok = must_pass(g, F, ref) and bool(F.used)
+    ctx.ob('C02.R6', 'AlterObjectType._alter_finalize:unions-refreshed', ok,
+           'the union types that contain the altered type are not '
+           'refreshed on every non-canonical ALTER: pointers that arrive '
+           'through EXTENDING (a rebase, not a pointer subcommand) are '
+           'missing from (A | B), and no DDL can add them afterwards',
+           af.loc, sample='not canonical -> refresh unions')
